@@ -74,6 +74,8 @@ package trend
 //@ ensures[C03] consumed(c) == len(c) && closed(result)
 //@ ensures[C04] forall kk :: 0 <= kk && kk < len(result) ==> hor(result, kk) <= hor(c, kk + (m.IdlePeriod()))
 //@ ensures[C01,C15] "window-extremum" forall k :: 0 <= k && k < len(result) ==> result[k] == wmaxS(c, k, k + m.Period)
+//@ ensures[C15] "bounds-window" forall k, j :: 0 <= k && k < len(result) && k <= j && j < k + m.Period ==> result[k] >= c[j]
+//@ use wmax_ge(c, _, _, _)
 //@ lit#0 invariant count == calls
 //@ lit#0 invariant forall v real :: bcount(bst, v) == wcount(cs[0], pos(calls - m.Period), calls, v)
 //@ lit#0 yields wmaxS(cs[0], pos(calls + 1 - m.Period), calls + 1)
@@ -90,6 +92,8 @@ package trend
 //@ ensures[C03] consumed(c) == len(c) && closed(result)
 //@ ensures[C04] forall kk :: 0 <= kk && kk < len(result) ==> hor(result, kk) <= hor(c, kk + (m.IdlePeriod()))
 //@ ensures[C01,C15] "window-extremum" forall k :: 0 <= k && k < len(result) ==> result[k] == wminS(c, k, k + m.Period)
+//@ ensures[C15] "bounds-window" forall k, j :: 0 <= k && k < len(result) && k <= j && j < k + m.Period ==> result[k] <= c[j]
+//@ use wmin_le(c, _, _, _)
 //@ lit#0 invariant count == calls
 //@ lit#0 invariant forall v real :: bcount(bst, v) == wcount(cs[0], pos(calls - m.Period), calls, v)
 //@ lit#0 yields wminS(cs[0], pos(calls + 1 - m.Period), calls + 1)
@@ -211,6 +215,7 @@ package trend
 //@ ensures[C03] consumed(opening) == len(opening) && consumed(high) == len(high) && consumed(low) == len(low) && consumed(closing) == len(closing) && closed(result)
 //@ ensures[C04] forall kk :: 0 <= kk && kk < len(result) ==> hor(result, kk) <= max(hor(opening, kk + (0)), max(hor(high, kk + (0)), max(hor(low, kk + (0)), hor(closing, kk + (0)))))
 //@ ensures[C01] forall k :: 0 <= k && k < len(result) ==> result[k] == (closing[k] - opening[k]) / (high[k] - low[k])
+//@ ensures[C15] "range" forall k :: 0 <= k && k < len(result) && low[k] <= opening[k] && opening[k] <= high[k] && low[k] <= closing[k] && closing[k] <= high[k] && low[k] < high[k] ==> 0 - 1 <= result[k] && result[k] <= 1
 
 //@ func Cci.Compute
 //@ requires c.Period >= 1 && consumed(highs) == 0 && consumed(lows) == 0 && consumed(closings) == 0 && len(highs) == len(lows) && len(highs) == len(closings)
